@@ -63,10 +63,32 @@ class TopTranslator(NumTranslator):
           aliased elsewhere)             -> $new = []; for x in L: <body>; $new.append(x)   then  L = $new
       T5  f.write(s) / w.writerow(r) / w.writerows(rs) on a LOCAL name  -> XMethod (the receiver is written back: the
           file is a value, its content; csv.writer(file) wraps that content and is the only way the file is reached afterwards)
+      T7  for a, b in zip(X, L): <body that mutates b in place>  (L a local list, items not aliased elsewhere)
+                                         -> $new = []; for a, b in zip(X, L): <body>; $new.append(b)
+                                            then  L = $new + L[len($new):]
       T6  C(args, k=v) for a class C declared primitive keeps its keywords in the primitive's name (py2mini does that);
           F1 (f-strings) as in RenderTranslator."""
 
     IO_MUTATORS = {'write', 'writerow', 'writerows'}
+
+    def __init__(self, func, refs, prims=(), coq_name='f', sink=None):
+        # as FuncTranslator.__init__, but a trailing **kwargs that the body never mentions is dropped
+        src = textwrap.dedent(inspect.getsource(func))
+        fd = ast.parse(src).body[0]
+        if isinstance(fd, ast.FunctionDef) and fd.args.kwarg is not None:
+            kw = fd.args.kwarg.arg
+            if any(isinstance(n, ast.Name) and n.id == kw for n in ast.walk(fd)):
+                raise Untranslatable(f'**{kw} is used in the body')
+            real = inspect.getsource
+            try:
+                fd.args.kwarg = None
+                stripped = ast.unparse(fd)
+                inspect.getsource = lambda f: stripped if f is func else real(f)
+                super().__init__(func, refs, prims=prims, coq_name=coq_name, sink=sink)
+            finally:
+                inspect.getsource = real
+        else:
+            super().__init__(func, refs, prims=prims, coq_name=coq_name, sink=sink)
 
     def expr(self, e):
         if isinstance(e, ast.JoinedStr):
@@ -105,6 +127,29 @@ class TopTranslator(NumTranslator):
             body = body[:-1] + sep + f'(SExpr (XMethod (TName "$new") "append" [(XName {py2mini.gstr(x)})]))]'
             return (f'(SAssign (TName "$new") (XList [])); (SFor {py2mini.gstr(x)} (XName {py2mini.gstr(lst)}) {body}); '
                     f'(SAssign (TName {py2mini.gstr(lst)}) (XName "$new"))')
+        if isinstance(s, ast.For) and isinstance(s.target, ast.Tuple) and not s.orelse \
+                and all(isinstance(t, ast.Name) for t in s.target.elts) and isinstance(s.iter, ast.Call) \
+                and isinstance(s.iter.func, ast.Name) and s.iter.func.id == 'zip' and s.iter.func.id not in self.locals \
+                and self.resolve_free('zip') is zip and not s.iter.keywords \
+                and len(s.iter.args) == len(s.target.elts):                                               # T7
+            hits = [(t.id, a) for t, a in zip(s.target.elts, s.iter.args) if self._mutates(s.body, t.id)]
+            if hits:
+                if len(hits) != 1 or not (isinstance(hits[0][1], ast.Name) and hits[0][1].id in self.locals):
+                    raise Untranslatable('in-place loop over zip: exactly one mutated item, taken from a local list')
+                x, lst = hits[0][0], hits[0][1].id
+                for n in ast.walk(ast.Module(body=s.body, type_ignores=[])):
+                    if isinstance(n, ast.Name) and n.id == lst:
+                        raise Untranslatable('in-place loop body mentions the list it iterates over')
+                    if isinstance(n, (ast.Return, ast.Break, ast.Continue, ast.Yield, ast.YieldFrom)):
+                        raise Untranslatable('in-place loop body leaves the loop / yields')
+                self.locals.add('$new')
+                body = self.block(s.body)
+                sep = '' if body == '[]' else '; '
+                body = body[:-1] + sep + f'(SExpr (XMethod (TName "$new") "append" [(XName {py2mini.gstr(x)})]))]'
+                names = glist([py2mini.gstr(t.id) for t in s.target.elts])
+                g = py2mini.gstr(lst)
+                return (f'(SAssign (TName "$new") (XList [])); (SForUnpack {names} {self.expr(s.iter)} {body}); '
+                        f'(SAssign (TName {g}) (XBin OAdd (XName "$new") (XSlice (XName {g}) (Some (XLen (XName "$new"))) None)))')
         return super().stmt(s)
 
     @staticmethod
@@ -117,7 +162,7 @@ class TopTranslator(NumTranslator):
         return False
 
 
-TOP_PRIMS = ('builtins.max', 'builtins.any', 'builtins.zip')
+TOP_PRIMS = ('builtins.max', 'builtins.any', 'builtins.zip', 'beanquery.query_render.RenderContext', '_csv.writer')
 
 
 def spec_render():
@@ -141,6 +186,7 @@ def spec_render():
     out.append(('render_decimal_prepare_head', qr.DecimalRenderer.__dict__['prepare'],
                 'beanquery.query_render.DecimalRenderer.prepare without its last statement `return super().prepare()`', True))
     out.append(('render_rows_fn', qr.render_rows, 'beanquery.query_render.render_rows', 'top'))
+    out.append(('render_csv_fn', qr.render_csv, 'beanquery.query_render.render_csv (without its unused **kwargs)', 'top'))
     return out
 
 
